@@ -9,6 +9,11 @@ import common
 
 
 def main():
+    try:        # a runaway harness must fail fast instead of exhausting the machine
+        import resource
+        resource.setrlimit(resource.RLIMIT_AS, (24 << 30, 24 << 30))
+    except Exception:
+        pass
     args = sys.argv[1:]
     if not args:
         print("usage: check <ID> [--tier quick|thorough] [--replay FILE]")
